@@ -337,6 +337,8 @@ def str_method(I, s, name, args, kwargs):
             return getattr(s, name)(*args, **kwargs)
         except Exception as ex:
             raise PyRaise(I.mkexc(type(ex), *ex.args))
+    if isinstance(s, SStr) and s.tag == "enum_name" and name in ("lower", "upper") and not args:
+        return SStr("enum_name", [s.parts[0], name])
     if isinstance(s, SStr) and s.tag == "hex" and s.parts and name == "replace" and len(args) == 2 and args[0] == s.parts[1] and args[1] == "" and args[0] != "":
         return SStr("hex", [s.parts[0], ""])
     if isinstance(s, SStr) and s.tag == "latin1" and name == "rstrip" and args == ["\0"]:
